@@ -601,6 +601,7 @@ func (eval RingPackingEvaluator) Expand(ct *Ciphertext, logGap int) (cts map[int
 //   - The number of ciphertexts is 0
 //   - Any input ciphertext degree is not one
 //   - Gaps between ciphertexts is smaller than inputLogGap > N
+//   - zeroGarbageSlots is false and no ciphertext index is a multiple of the smallest (power of two) gap between ciphertexts
 //   - The ring type is not ring.Standard
 //
 // Example: we want to pack 4 ciphertexts into one, and keep only coefficients which are a multiple of X^{4}.
@@ -683,6 +684,20 @@ func (eval RingPackingEvaluator) Pack(cts map[int]*Ciphertext, inputLogGap int, 
 
 	if logStart >= logEnd {
 		return nil, fmt.Errorf("gaps between ciphertexts is smaller than inputLogGap > N")
+	}
+
+	if !zeroGarbageSlots {
+
+		// Only the ciphertexts whose index is a multiple of the gap are merged into the result (the other ones
+		// are discarded with the garbage slots): at least one of them is needed to have a result to return.
+		var ok bool
+		for _, key := range keys {
+			ok = ok || key&(1<<logGap-1) == 0
+		}
+
+		if !ok {
+			return nil, fmt.Errorf("no ciphertext index is a multiple of the smallest gap 2^{%d} between ciphertexts", logGap)
+		}
 	}
 
 	NInv := new(big.Int).SetUint64(uint64(1 << (logEnd - logStart)))
